@@ -524,6 +524,8 @@ func (d *cdrv) start(m *lmon) error {
 		m.closed = true
 		if se := d.stderr.String(); strings.Contains(se, "too many open files") || strings.Contains(se, "Unable to open file") || strings.Contains(se, "no space left") {
 			d.env.Store(true) // inotify instance limit etc.: environment, not the property
+		} else if !d.ending.Load() && d.cs.Reopen {
+			m.fail("ended-in-reopen", fmt.Sprintf("`rare %s` ended its output by itself: re-open follow keeps waiting for the path, whether or not a file is there at the moment; stderr: %s", strings.Join(args, " "), run.Q(d.stderr.String())))
 		} else if !d.ending.Load() {
 			for _, f := range m.files {
 				if !f.removed {
